@@ -2,12 +2,20 @@
 //@@ include hook.rs
 //@@ include algspec.rs
 //@@ include algutils.rs
+//@@ include xcheck.rs
+//@@ include replace.rs
 //@@ include myers.rs
 //@@ include lcs.rs
+//@@ include patience.rs
+//@@ include algmod.rs
 //@@ props ^DiffHook : C08
 //@@ props ^NoFinishHook : C08
 //@@ props ^is_empty_range$|^common_prefix_len$|^common_suffix_len$ : C01
 //@@ props ^deadline_exceeded$ : C07
 //@@ props ^myers:: : C01 C07 C08
 //@@ props ^lcs:: : C01 C07 C08
+//@@ props ^patience:: : C01 C07 C08
+//@@ props ^unique$|^UniqueItem|^PartialEq for UniqueItem : C01
+//@@ props ^Replace::|^DiffHook for Replace:: : C01 C08
+//@@ props ^diff$|^diff_deadline$|^diff_slices$|^diff_slices_deadline$ : C01 C07 C08
 fn main() {}
